@@ -229,4 +229,148 @@ theorem exponent_iff (b eb : Nat) (he : eb ≤ 62) (e : List Nat) (x : Int) :
       simp only [List.head?_cons, beq_self_eq_true, Bool.or_true, if_true, List.tail_cons, t]
       simp [hl]
 
+/-! ### body -/
+
+theorem start_iff (b : Nat) (hb : b ≤ 62) (c : Nat) (rest : List Nat) :
+    (!(isDig b b c || (c == 46 && isDig b b (rest.headD 0)))) = false ↔
+      First b (c :: rest.takeWhile (fun x => !isMarker b x)) := by
+  have e1 : (!(isDig b b c || (c == 46 && isDig b b (rest.headD 0)))) = false ↔
+      (dv b c < b ∨ (c = 46 ∧ dv b (rest.headD 0) < b)) := by
+    by_cases ha : dv b c < b
+    · simp [isDig, ha]
+    · by_cases hc : c = 46
+      · subst hc; simp [isDig, ha]
+      · simp [isDig, ha, hc]
+  rw [e1]
+  constructor
+  · rintro (h | ⟨rfl, h⟩)
+    · exact Or.inl ⟨c, _, rfl, h⟩
+    · cases rest with
+      | nil => exact absurd h (not_dig b b 0 hb (by simp))
+      | cons d t =>
+        simp only [List.headD_cons] at h
+        have hm := dig_not_marker b d hb h
+        exact Or.inr ⟨d, t.takeWhile (fun x => !isMarker b x), by simp [List.takeWhile_cons, hm], h⟩
+  · rintro (⟨c', t, heq, h⟩ | ⟨d, t, heq, h⟩)
+    · simp only [List.cons.injEq] at heq
+      obtain ⟨rfl, _⟩ := heq
+      exact Or.inl h
+    · simp only [List.cons.injEq] at heq
+      obtain ⟨rfl, heq⟩ := heq
+      right
+      refine ⟨rfl, ?_⟩
+      cases rest with
+      | nil => simp at heq
+      | cons d' t' =>
+        by_cases hp : (!isMarker b d') = true
+        · simp only [List.takeWhile_cons, hp, if_true, List.cons.injEq] at heq
+          obtain ⟨rfl, _⟩ := heq
+          simpa using h
+        · simp [List.takeWhile_cons, hp] at heq
+
+theorem first_cons (b : Nat) {m : List Nat} (h : First b m) : ∃ c m0, m = c :: m0 := by
+  rcases h with ⟨c, t, rfl, _⟩ | ⟨d, t, rfl, _⟩
+  · exact ⟨_, _, rfl⟩
+  · exact ⟨_, _, rfl⟩
+
+theorem body_sound (neg : Bool) (b eb : Nat) (hb : b ≤ 62) (he : eb ≤ 62) (s : List Nat) (p : Parsed)
+    (h : body neg b eb s = some p) : Body neg b eb s p := by
+  cases s with
+  | nil => simp [body] at h
+  | cons c rest =>
+    simp only [body] at h
+    by_cases h0 : (!(isDig b b c || (c == 46 && isDig b b (rest.headD 0)))) = true
+    · rw [if_pos h0] at h; cases h
+    · have h0' : (!(isDig b b c || (c == 46 && isDig b b (rest.headD 0)))) = false := by simpa using h0
+      have hF := (start_iff b hb c rest).1 h0'
+      simp only [h0', Bool.false_eq_true, if_false] at h
+      have hsplit := List.takeWhile_append_dropWhile (p := fun x => !isMarker b x) (l := rest)
+      cases hm : mantissa b (c :: rest.takeWhile (fun x => !isMarker b x)) with
+      | none => simp [hm] at h
+      | some q =>
+        obtain ⟨ds, pt⟩ := q
+        have hM := (mantissa_iff b hb _ ds pt).1 hm
+        simp only [hm] at h
+        cases hd : rest.dropWhile (fun x => !isMarker b x) with
+        | nil =>
+          simp only [hd, Option.some.injEq] at h
+          rw [hd, List.append_nil] at hsplit
+          rw [hsplit] at hF hM
+          rw [← h]
+          exact Body.plain hF hM
+        | cons k e =>
+          have hk : isMarker b k = true := by
+            have := @List.head_dropWhile_not _ (fun x => !isMarker b x) rest (by rw [hd]; simp)
+            simpa [hd] using this
+          rw [hd] at hsplit
+          have hs : c :: rest = (c :: rest.takeWhile (fun x => !isMarker b x)) ++ k :: e := by
+            rw [List.cons_append, hsplit]
+          simp only [hd] at h
+          by_cases hany : e.any (isMarker b) = true
+          · simp [hany] at h
+          · have hN : NoMarker b e := by
+              intro x hx
+              cases hx' : isMarker b x with
+              | false => rfl
+              | true => exact absurd (List.any_eq_true.2 ⟨x, hx, hx'⟩) hany
+            simp only [hany, Bool.false_eq_true, if_false] at h
+            by_cases hz : Radix.ofDigits b ds = 0
+            · simp only [hz, if_true, Option.some.injEq] at h
+              rw [← h, hs]
+              exact Body.zero hF hM hz hk hN
+            · simp only [hz, if_false] at h
+              cases hx : exponent b eb e with
+              | none => simp [hx] at h
+              | some x =>
+                simp only [hx, Option.some.injEq] at h
+                rw [← h, hs]
+                exact Body.expo hF hM hz hk hN ((exponent_iff b eb he e x).1 hx)
+
+theorem body_complete (neg : Bool) (b eb : Nat) (hb : b ≤ 62) (he : eb ≤ 62) (s : List Nat) (p : Parsed)
+    (h : Body neg b eb s p) : body neg b eb s = some p := by
+  cases h with
+  | @plain m ds pt hF hM =>
+    obtain ⟨c, m0, rfl⟩ := first_cons b hF
+    have hN := mant_noMarker b hb hM
+    have ht := tw_all (p := fun x => !isMarker b x) m0
+      (fun x hx => by simp [hN x (List.mem_cons_of_mem _ hx)])
+    have hF' := hF
+    rw [← ht.1] at hF' hM
+    have h0 := (start_iff b hb c m0).2 hF'
+    have hm := (mantissa_iff b hb _ ds pt).2 hM
+    simp only [body, h0, Bool.false_eq_true, if_false, hm, ht.2]
+  | @zero m ds pt k junk hF hM hz hk hJ =>
+    obtain ⟨c, m0, rfl⟩ := first_cons b hF
+    have hN := mant_noMarker b hb hM
+    have ht := tw_append (p := fun x => !isMarker b x) m0 k junk
+      (fun x hx => by simp [hN x (List.mem_cons_of_mem _ hx)]) (by simp [hk])
+    have hF' := hF
+    rw [← ht.1] at hF' hM
+    have h0 := (start_iff b hb c (m0 ++ k :: junk)).2 hF'
+    have hm := (mantissa_iff b hb _ ds pt).2 hM
+    have hany : junk.any (isMarker b) = false := by
+      cases ha : junk.any (isMarker b) with
+      | false => rfl
+      | true =>
+        obtain ⟨x, hx, hx'⟩ := List.any_eq_true.1 ha
+        rw [hJ x hx] at hx'; cases hx'
+    simp only [List.cons_append, body, h0, Bool.false_eq_true, if_false, hm, ht.2, hany, hz, if_true]
+  | @expo m ds pt k e x hF hM hz hk hJ hE =>
+    obtain ⟨c, m0, rfl⟩ := first_cons b hF
+    have hN := mant_noMarker b hb hM
+    have ht := tw_append (p := fun x => !isMarker b x) m0 k e
+      (fun x hx => by simp [hN x (List.mem_cons_of_mem _ hx)]) (by simp [hk])
+    have hF' := hF
+    rw [← ht.1] at hF' hM
+    have h0 := (start_iff b hb c (m0 ++ k :: e)).2 hF'
+    have hm := (mantissa_iff b hb _ ds pt).2 hM
+    have hany : e.any (isMarker b) = false := by
+      cases ha : e.any (isMarker b) with
+      | false => rfl
+      | true =>
+        obtain ⟨y, hy, hy'⟩ := List.any_eq_true.1 ha
+        rw [hJ y hy] at hy'; cases hy'
+    have hx := (exponent_iff b eb he e x).2 hE
+    simp only [List.cons_append, body, h0, Bool.false_eq_true, if_false, hm, ht.2, hany, hz, hx]
+
 end Mpir.MpfParse
